@@ -141,6 +141,7 @@ public:
         c_->async_disconnect(mq::disconnect_rc_e(rc), props, bind(op, with_slot, [t, this](error_code ec) { t->invoked = true; sink_.on_disconnect_done(t->op, ec); }));
     }
     void cancel() override { if (c_) c_->cancel(); }
+    void re_authenticate() override { if (c_) c_->re_authenticate(); }
     void destroy() override { c_.reset(); }
     bool alive() const override { return bool(c_); }
     void emit_signal(int op, SigType type) override {
